@@ -61,6 +61,9 @@ TRUSTED = [
     "_wait_to_handle_epr_responses as no-op, _execute_command yielding before delegating)",
 ]
 ASSUMPTIONS = [
+    "application life cycle: stop_application may occur anywhere in a schedule (in well-formed scenarios after "
+    "the application's subroutines have ended); it drops the application's memory and qubits only — requests, "
+    "the pending list and the subroutine table are untouched (model action stopApp)",
     "link-layer behaviours explored: distinct physical ids per pair AND one communication qubit (every keep "
     "response carries the same logical_qubit_id; keep requests of the sequential kind, one at a time); globally "
     "unique create ids AND per-link numbering (equal (create_id, sequence_number) on different remote nodes). "
@@ -191,7 +194,7 @@ def run(ctx):
         toks = H.interleave(rng, H.random_schedule(scs[0], rng, early=rng.choice([0, 1, 2])),
                             H.random_schedule(scs[1], rng, early=rng.choice([0, 1, 2])))
         _run_two(ctx, res, H, scs, toks)
-    n_random = 9000 if ctx.thorough else 1000
+    n_random = 8000 if ctx.thorough else 1000
     for i in range(n_random):
         if len(res.failures) >= MAX_FAILURES:
             break
@@ -211,7 +214,7 @@ def run(ctx):
     # link-layer behaviours: ONE communication qubit (every keep response carries the same physical id;
     # sequential keep requests whose pairs share a virtual qubit) and per-link numbering (responses of two
     # remote nodes carry equal (create_id, sequence_number))
-    n_link = 4000 if ctx.thorough else 500
+    n_link = 3000 if ctx.thorough else 500
     for i in range(n_link):
         if len(res.failures) >= MAX_FAILURES:
             break
@@ -223,6 +226,16 @@ def run(ctx):
             res.count("link:per-link-numbering-two-remotes")
         toks = H.random_schedule(sc, rng, early=rng.choice([0, 0, 1, 2]))
         _run_case(ctx, res, H, sc, toks, "lnk")
+    # application life cycle inside the schedules: two applications on the node, stop_application of one
+    # while responses for the other's not-yet-issued requests are parked
+    n_life = 2500 if ctx.thorough else 450
+    for i in range(n_life):
+        if len(res.failures) >= MAX_FAILURES:
+            break
+        sc = H.gen_scenario(rng, two_apps=True, mixed_roles=(i % 3 == 0), malformed=(i % 9 == 8))
+        toks = H.random_schedule(sc, rng, early=rng.choice([0, 1, 2, 3, len(sc.resps)]), stops=True)
+        _run_case(ctx, res, H, sc, toks, "lif")
+        res.count("life-cycle:stop-in-schedule")
     # faults at the environment boundary: the network stack refuses a request (put raises) or does not
     # know the socket (get_purpose_id raises) inside one subroutine; the others go on using the socket
     n_fault = 2000 if ctx.thorough else 350
